@@ -28,7 +28,7 @@ from pysasl.mechanism import ServerChallenge, ChallengeResponse
 from pysasl.creds.client import ClientCredentials
 from pysasl.exception import AuthenticationError
 
-from . import SmtpError
+from . import SmtpError, BadReply
 from .reply import Reply
 
 __all__ = ['ServerAuthError', 'AuthSession']
@@ -159,7 +159,10 @@ class AuthSession(object):
         ret = Reply(command=b'AUTH')
         ret.recv(self.io)
         if ret.code == '334':
-            return base64.b64decode(ret.message), ret
+            try:
+                return base64.b64decode(ret.message), ret
+            except ValueError:
+                raise BadReply(bytes(ret))
         return None, ret
 
     def client_attempt(self, authcid, secret, authzid, mech_name):
